@@ -25,6 +25,9 @@ type CEnv struct {
 	inOld   bool
 	prevs   map[int]*State // loop ordinal -> state at that loop's head
 	outer   *CEnv          // inside prev(K, ...): the enclosing environment (now(e))
+	// skolemEx: the expression is being ASSUMED and the current position is positive and ground: an
+	// existential here is replaced by a fresh witness constant (recorded in World.witnessTerms)
+	skolemEx bool
 }
 
 func (env *CEnv) noteRead(key string, idx Term) {
@@ -118,6 +121,23 @@ func (env *CEnv) state() *State {
 		return env.old
 	}
 	return env.cur
+}
+
+// neutral returns the environment for a sub-expression in which existentials must not be skolemised
+// (negative or mixed polarity, or under a binder).
+func (env *CEnv) neutral() *CEnv {
+	if !env.skolemEx {
+		return env
+	}
+	n := *env
+	n.skolemEx = false
+	return &n
+}
+
+func (env *CEnv) assuming() *CEnv {
+	n := *env
+	n.skolemEx = true
+	return &n
 }
 
 func (env *CEnv) with(name string, v *Val) *CEnv {
@@ -309,7 +329,7 @@ func (w *World) eval(env *CEnv, e *CExpr) *Val {
 		}
 		return &Val{T: w.unbox(w.sortOf(t), ival(x.T)), Typ: t}
 	case "un":
-		x := w.eval(env, e.Args[0])
+		x := w.eval(env.neutral(), e.Args[0])
 		if e.Name == "!" {
 			return &Val{T: not(x.T), Typ: types.Typ[types.Bool]}
 		}
@@ -317,6 +337,29 @@ func (w *World) eval(env *CEnv, e *CExpr) *Val {
 	case "bin":
 		return w.evalBin(env, e)
 	case "forall", "exists":
+		if e.Op == "exists" && env.skolemEx {
+			// assumed, positive, ground: name the witness
+			inner := env
+			for _, b := range e.Binders {
+				var srt Sort
+				var typ types.Type
+				if b.Type.Raw != "" {
+					srt = Sort(b.Type.Raw)
+				} else if b.Type.Pkg == "" && b.Type.Ptr == 0 && !b.Type.Slice && w.isSortName(b.Type.Name) {
+					srt = Sort(b.Type.Name)
+				} else {
+					typ = w.resolveType(env, b.Type)
+					srt = w.sortOf(typ)
+				}
+				c := w.sc.fresh("wit."+b.Name, srt)
+				inner = inner.with(b.Name, &Val{T: c, Typ: typ})
+				if _, isBasic := typ.(*types.Basic); srt == SInt && (typ == nil || isBasic) {
+					w.witnessTerms = append(w.witnessTerms, c)
+				}
+			}
+			return &Val{T: w.evalBool(inner, e.Args[0]), Typ: types.Typ[types.Bool]}
+		}
+		env = env.neutral()
 		inner := env
 		var bs []string
 		var guards []Term
@@ -588,14 +631,15 @@ func (w *World) evalBin(env *CEnv, e *CExpr) *Val {
 	boolT := types.Typ[types.Bool]
 	switch op {
 	case "==>":
-		return &Val{T: implies(w.evalBool(env, e.Args[0]), w.evalBool(env, e.Args[1])), Typ: boolT}
+		return &Val{T: implies(w.evalBool(env.neutral(), e.Args[0]), w.evalBool(env, e.Args[1])), Typ: boolT}
 	case "<==>":
-		return &Val{T: eq(w.evalBool(env, e.Args[0]), w.evalBool(env, e.Args[1])), Typ: boolT}
+		return &Val{T: eq(w.evalBool(env.neutral(), e.Args[0]), w.evalBool(env.neutral(), e.Args[1])), Typ: boolT}
 	case "&&":
 		return &Val{T: and(w.evalBool(env, e.Args[0]), w.evalBool(env, e.Args[1])), Typ: boolT}
 	case "||":
 		return &Val{T: or(w.evalBool(env, e.Args[0]), w.evalBool(env, e.Args[1])), Typ: boolT}
 	}
+	env = env.neutral()
 	x, y := w.eval(env, e.Args[0]), w.eval(env, e.Args[1])
 	switch op {
 	case "==", "!=":
@@ -670,6 +714,7 @@ func (w *World) evalCall(env *CEnv, e *CExpr) *Val {
 		unsupported("call of non-identifier in contract")
 	}
 	name := fnE.Name
+	env = env.neutral() // arguments of builtins and macros: no witness naming
 	ev := func(i int) *Val { return w.eval(env, args[i]) }
 	switch name {
 	case "addr":
